@@ -478,6 +478,25 @@ def ignore_cases(ctx, entry, dirs):
                 if canon(got) != canon(want):
                     ctx.violation('%s|IGNORE-MERGE|%s' % (PROP, 'own' if len(chosen) == 1 and secs[chosen[0]] == OWN[entry] else 'sections'),
                                   '%s: Ignore resolves to %r, path-by-path merge gives %r' % (entry, got, want), dict(case, observed=got))
+                    continue
+                # two-step histories in one process: a full dump (what --config prints) for this command must not change
+                # what any other command resolves afterwards, compared with that command's own resolution before the dump
+                others = [e for e in OWN if e not in (entry, 'server')]
+                try:
+                    before = {e: canon(build_config(e).get('Ignore', {})) for e in others}
+                    build_config(entry, True)
+                    after = {e: canon(build_config(e).get('Ignore', {})) for e in others}
+                except Exception as e:
+                    ctx.violation(exc_fingerprint(PROP, e, 'EXC|Ignore-history|' + entry), 'build_config raised %s: %s' % (type(e).__name__, e), case)
+                    continue
+                ctx.count('evaluations', len(others))
+                ctx.count('ignore_history_cases', len(others))
+                for e in others:
+                    if before[e] != after[e]:
+                        ctx.violation('%s|IGNORE-HISTORY|dump-then-resolve' % PROP,
+                                      'after a full dump for %s, %s resolves Ignore to %s; before the dump it was %s' % (entry, e, after[e], before[e]),
+                                      dict(case, other=e, before=before[e], after=after[e]))
+                        break
     # one section's Ignore mapping split over two directories: merged path by path, higher directory wins per path
     for sec in secs:
         content = [dict() for _ in dirs]
